@@ -172,11 +172,17 @@ impl C19 {
             2 => {
                 let mut c = gen_set_speed_case(g, tier, true);
                 c.save_interval = interval;
+                if !c.train.dummy && g.bool(0.25) {
+                    c.train.hybrids = 1;
+                }
                 train = Some(c);
             }
             _ => {
                 let mut c = gen_slts_case(g, tier, false);
                 c.save_interval = interval;
+                if g.bool(0.25) {
+                    c.train.hybrids = 1;
+                }
                 train = Some(c);
             }
         }
